@@ -44,6 +44,7 @@ std::vector<long> g_trace;		 // primitive transfer sizes
 std::vector<void*> g_refs;		 // NiRef objects seen in Sync
 std::vector<void*> g_srefs;		 // NiStringRef objects seen in Sync
 long g_maxCount = 3;
+long g_budget = -1;			 // >= 0: number of generated integers left before the generator turns to zeros
 bool g_monotoneBytes = false, g_sawZeroByte = false;
 std::string g_b0;				 // the bytes the generative read delivered, in stream order
 bool g_b0ok = true;
@@ -75,9 +76,10 @@ const float kFloats[] = {0.0f, 1.0f, -1.0f, 0.5f, 2.25f, 100.125f, -3.75f, 0.062
 // fspecial=1 cases: single floats come from the boundary palette instead (FLT_MAX, its neighbour, the infinities, a NaN,
 // -0, a denormal): the values a float comparison in a Sync body distinguishes (BSLightingShaderProperty::Sync)
 bool g_fspecial = false;
+int g_floatShift = 0;	// copyblk edits: same seed (same counts, flags, nesting), every float moved along the palette
 float pick_float() {
 	if (!g_fspecial)
-		return kFloats[g_gen.below(8)];
+		return kFloats[(g_gen.below(8) + static_cast<uint32_t>(g_floatShift)) % 8];
 	static const uint32_t bits[] = {0x7F7FFFFFu, 0x7F7FFFFEu, 0x7F800000u, 0xFF800000u, 0x7FC00000u, 0x80000000u, 0x00000001u, 0xFF7FFFFFu,
 									0x3F800000u, 0x00000000u, 0xFFC00001u, 0x7F7FFFFFu};
 	uint32_t b = bits[g_gen.below(12)];
@@ -127,6 +129,14 @@ void onTyped(int mode, void* ptr, size_t size, int kind) {
 			v = (size == 1) ? 128 : 256;
 		else
 			v = 1;
+		// copyblk cases: after g_budget generated integers everything is 0 (bounds the nesting of self-similar
+		// structures such as UnionBV inside UnionBV when larger enum values are allowed)
+		if (g_budget >= 0) {
+			if (g_budget == 0)
+				v = 0;
+			else
+				--g_budget;
+		}
 		// very large counts make the reader allocate gigabytes: the generator stays below 2^16 for
 		// 4/8-byte integers except the all-ones pattern, which it only uses for references
 		if (g_monotoneBytes && size == 1) {
@@ -157,7 +167,7 @@ void onTyped(int mode, void* ptr, size_t size, int kind) {
 		// plain structs: arrays of floats when the size is a multiple of 4, small 16-bit values otherwise
 		if (size % 4 == 0) {
 			for (size_t i = 0; i + 4 <= size; i += 4) {
-				float f = kFloats[g_gen.below(8)];
+				float f = kFloats[(g_gen.below(8) + static_cast<uint32_t>(g_floatShift)) % 8];
 				std::memcpy(p + i, &f, 4);
 			}
 		}
@@ -635,6 +645,94 @@ std::string do_save3(const Case& c) {
 	return os.str();
 }
 
+// copyblk type=T ver=.. seed=N: a generated instance of T inside a minimal file; the file object is copied, the
+// instance inside ONE of the two is overwritten in place (generative read with another seed), the other one must
+// still write what it wrote before - also after the edited one has been destroyed (C11 for every block type)
+void regen_in_place(NifFile& nif, uint32_t id, const Case& c, long salt) {
+	NiHeader& hdr = nif.GetHeader();
+	auto obj = hdr.GetBlock<NiObject>(id);
+	if (!obj)
+		return;
+	std::string zeros(1 << 20, '\0');
+	std::istringstream zin(zeros);
+	NiIStream gin(&zin, &hdr);
+	// salt != 0: the SAME seed (the same structure: counts, flags, nesting) with every float moved along the palette, so
+	// that nested objects are overwritten where they are instead of being dropped
+	// (odd salts); even salts: another seed altogether (other counts and flags)
+	bool sameStructure = salt % 2 == 1;
+	g_gen.seed(static_cast<uint64_t>(c.geti("seed") + (sameStructure ? 0 : salt)) * 1000003ULL + std::hash<std::string>()(c.get("type") + c.get("ver")));
+	g_floatShift = sameStructure ? 1 + static_cast<int>(salt % 7) : 0;
+	g_maxCount = c.get("maxc").empty() ? 3 : static_cast<uint32_t>(c.geti("maxc"));
+	g_nextIsRef = false;
+	g_monotoneBytes = c.get("type") == "BSGeometry";
+	g_sawZeroByte = false;
+	g_descShaped = false;
+	g_budget = 400;
+	g_generate = true;
+	obj->Get(gin);
+	g_generate = false;
+	g_budget = -1;
+	g_floatShift = 0;
+	g_descShaped = true;
+}
+
+std::string do_copyblk(const Case& c) {
+	auto fac = NiFactoryRegister::Get().GetFactoryByName(c.get("type"));
+	if (!fac)
+		return "NOFACTORY";
+	auto nifp = std::make_unique<NifFile>();
+	NifFile& nif = *nifp;
+	nif.Create(parse_ver(c.get("ver")));
+	for (int i = 0; i < 3; ++i)
+		nif.GetHeader().AddBlock(std::make_unique<NiNode>());
+	uint32_t id = nif.GetHeader().AddBlock(fac->Create());
+	regen_in_place(nif, id, c, 0);
+	NifSaveOptions raw;
+	raw.optimize = false;
+	raw.sortBlocks = false;
+	auto save = [&](NifFile& f) {
+		std::stringstream ss;
+		int r = f.Save(ss, raw);
+		return std::to_string(r) + ":" + ss.str();
+	};
+	std::ostringstream os;
+	std::string sA = save(nif), sB = save(nif), sC = save(nif);
+	os << "len=" << sB.size() << " stable=" << (sB == sC) << " first=" << (sA == sB);
+	if (sB != sC)
+		return os.str();
+	bool same1, kept1, kept1d, changed1, same2, kept2, kept2d, changed2;
+	{
+		// edit the copy, watch the source
+		auto cp = std::make_unique<NifFile>(nif);
+		same1 = save(*cp) == sB;
+		regen_in_place(*cp, id, c, 7777);
+		changed1 = save(*cp) != sB;
+		kept1 = save(nif) == sB;
+		regen_in_place(*cp, id, c, 7778);
+		changed1 = changed1 || save(*cp) != sB;
+		kept1 = kept1 && save(nif) == sB;
+		cp.reset();
+		kept1d = save(nif) == sB;
+	}
+	{
+		// edit the source, watch the copy; then destroy the source
+		auto cp = std::make_unique<NifFile>();
+		*cp = nif;
+		same2 = save(*cp) == sB;
+		regen_in_place(nif, id, c, 9999);
+		changed2 = save(nif) != sB;
+		kept2 = save(*cp) == sB;
+		regen_in_place(nif, id, c, 9998);
+		changed2 = changed2 || save(nif) != sB;
+		kept2 = kept2 && save(*cp) == sB;
+		nifp.reset();
+		kept2d = save(*cp) == sB;
+	}
+	os << " same1=" << same1 << " changed1=" << changed1 << " kept1=" << kept1 << " kept1d=" << kept1d
+	   << " same2=" << same2 << " changed2=" << changed2 << " kept2=" << kept2 << " kept2d=" << kept2d;
+	return os.str();
+}
+
 // fileblk type=T ver=.. seed=N: a generated instance of T inside a minimal file: raw save, load, raw save
 std::string do_fileblk(const Case& c) {
 	auto fac = NiFactoryRegister::Get().GetFactoryByName(c.get("type"));
@@ -860,9 +958,9 @@ int oracle_blocks(int, char**) {
 				os << (i ? "," : "") << names[i];
 			r = os.str();
 		}
-		else if (c.op == "blk" || c.op == "reput" || c.op == "resave" || c.op == "rtrunc" || c.op == "stale" || c.op == "save3" || c.op == "fileblk" || c.op == "bsextra") {
+		else if (c.op == "blk" || c.op == "reput" || c.op == "resave" || c.op == "rtrunc" || c.op == "stale" || c.op == "save3" || c.op == "fileblk" || c.op == "copyblk" || c.op == "bsextra") {
 			try {
-				r = c.op == "bsextra" ? do_bsextra(c) : c.op == "blk" ? do_blk(c) : (c.op == "reput" ? do_reput(c) : (c.op == "rtrunc" ? do_rtrunc(c) : (c.op == "stale" ? do_stale(c) : (c.op == "save3" ? do_save3(c) : (c.op == "fileblk" ? do_fileblk(c) : do_resave(c))))));
+				r = c.op == "bsextra" ? do_bsextra(c) : c.op == "blk" ? do_blk(c) : (c.op == "reput" ? do_reput(c) : (c.op == "rtrunc" ? do_rtrunc(c) : (c.op == "stale" ? do_stale(c) : (c.op == "save3" ? do_save3(c) : (c.op == "fileblk" ? do_fileblk(c) : (c.op == "copyblk" ? do_copyblk(c) : do_resave(c)))))));
 			}
 			catch (const std::exception& e) {
 				r = std::string("EXC:") + e.what();
